@@ -687,6 +687,9 @@ func (x *Exec) Obs() {
 	for _, t := range v2 {
 		eph = append(eph, ephOf(x.S, t))
 	}
+	// ---- C05 "stays retrievable": every listed transaction, everything listed at the previous report
+	// and every must-keep transaction is looked up BY ID through the lookup of its own version
+	asked, found := x.retrievable(p1, p2)
 	// ---- C14: what the last submission promised
 	if pa := x.pend; pa != nil {
 		x.pend = nil
@@ -788,7 +791,7 @@ func (x *Exec) Obs() {
 			return // nothing the specification could name: the recorded execution ends here
 		}
 	}
-	x.emit(map[string]any{"op": "Obs", "p1": p1, "p2": p2, "eph": eph, "full": full, "valid": valid, "mine": mine, "alias": alias})
+	x.emit(map[string]any{"op": "Obs", "p1": p1, "p2": p2, "eph": eph, "full": full, "valid": valid, "mine": mine, "alias": alias, "asked": asked, "found": found})
 	x.note("obs %v %v", p1, p2)
 	x.p1, x.p2 = p1, p2
 	x.fresh = true
@@ -799,6 +802,71 @@ func (x *Exec) Obs() {
 	if !x.dead && (mined.cut || !mined.accepted || !mined.prefix) {
 		x.emitMine(mined)
 	}
+}
+
+// retrievable looks every candidate up by its id through PoolTransaction (v1) / V2PoolTransaction (v2)
+// and audits the answer against the pool just reported: listed <=> found.
+func (x *Exec) retrievable(p1, p2 []int) (asked, found []int) {
+	listed := map[int]bool{}
+	cand := map[int]bool{}
+	for _, n := range append(append([]int{}, p1...), p2...) {
+		listed[n], cand[n] = true, true
+	}
+	for _, n := range append(append([]int{}, x.p1...), x.p2...) {
+		cand[n] = true
+	}
+	for id := range x.keep {
+		cand[x.S.ByID[id].Name] = true
+	}
+	asked, found = []int{}, []int{}
+	for n := range cand {
+		if n >= 1 && n <= len(x.S.Txs) {
+			asked = append(asked, n)
+		}
+	}
+	sort.Ints(asked)
+	for _, n := range asked {
+		p := x.S.Tx(n)
+		api, got, detail := "PoolTransaction", false, ""
+		func() {
+			defer func() {
+				if r := recover(); r != nil {
+					detail = fmt.Sprintf("panic: %v", r)
+				}
+			}()
+			if p.V2 {
+				api = "V2PoolTransaction"
+				txn, ok := x.N.CM.V2PoolTransaction(p.ID)
+				got = ok && txn.ID() == p.ID
+				if ok && !got {
+					detail = fmt.Sprintf("returned transaction %v", txn.ID())
+				}
+			} else {
+				txn, ok := x.N.CM.PoolTransaction(p.ID)
+				got = ok && txn.ID() == p.ID
+				if ok && !got {
+					detail = fmt.Sprintf("returned transaction %v", txn.ID())
+				}
+			}
+		}()
+		if got {
+			found = append(found, n)
+		}
+		switch {
+		case listed[n] && !got:
+			what := "absent"
+			if detail != "" {
+				what = "wrong-or-panic"
+			}
+			x.mismatch(fmt.Sprintf("audit:c05:retrievable:%s:listed-but-%s", api, what),
+				"transaction %d is listed in the reported pool v1 %v v2 %v at tip %d but %s(its id) does not return it (%s): an accepted transaction is no longer retrievable", n, p1, p2, x.Tip, api, detail)
+		case !listed[n] && got:
+			x.mismatch(fmt.Sprintf("audit:c05:retrievable:%s:found-but-not-listed", api),
+				"%s returns transaction %d although the reported pool v1 %v v2 %v at tip %d does not list it", api, n, p1, p2, x.Tip)
+		}
+	}
+	x.Res.Count("retrievable_lookups", len(asked))
+	return
 }
 
 func (x *Exec) isUnconfirmed(name int) bool {
